@@ -50,12 +50,14 @@ func RandInt(reader io.Reader, max *big.Int) (n *big.Int) {
 
 // DivRound sets the target i to round(a/b).
 func DivRound(a, b, i *big.Int) {
+	// private copies: i may be a or b (math/big convention)
 	_a := new(big.Int).Set(a)
-	i.Quo(_a, b)
-	r := new(big.Int).Rem(_a, b)
+	_b := new(big.Int).Set(b)
+	i.Quo(_a, _b)
+	r := new(big.Int).Rem(_a, _b)
 	r2 := new(big.Int).Mul(r, NewInt(2))
-	if r2.CmpAbs(b) != -1.0 {
-		if _a.Sign() == b.Sign() {
+	if r2.CmpAbs(_b) != -1.0 {
+		if _a.Sign() == _b.Sign() {
 			i.Add(i, NewInt(1))
 		} else {
 			i.Sub(i, NewInt(1))
